@@ -14,7 +14,7 @@ from vf.util import ddiff, digest, short
 LEVEL = "exploration"
 WORKERS = {"quick": 8, "thorough": 16}
 RULE = ("cases = (type expression, column position first/middle/last, following option none/NOT NULL/DEFAULT n/DEFAULT 'x'/COMMENT, "
-        "output mode sql/hql/bigquery/spark_sql): 24 sized/array/two-word forms ((n) (p,s) (p, s) (max) (n CHAR) (*,s) [] [][] "
+        "output mode sql/hql/bigquery/spark_sql): sized/array/two-word forms (incl. the product base x size form x array suffix [] [][] [][][] [n] [n][m] ARRAY) ((n) (p,s) (p, s) (max) (n CHAR) (*,s) [] [][] "
         "ARRAY suffix, two-word) and the recursive grammar T ::= leaf | ARRAY<T> | MAP<leaf,T> | STRUCT<f:T,...> (also 'f T', "
         "'f: T') enumerated exhaustively to depth 2 and sampled to depth 3 (quick) / 5 (thorough), every inner comma with/without a "
         "blank, brackets glued or spaced, constructor names upper/lower case. Non-trivial = the type has a size, a suffix, two "
@@ -34,6 +34,15 @@ SIZED = [
     ("int ARRAY", "int[]", None), ("double precision", "double precision", None), ("character varying(30)", "character varying", 30),
     ("character varying (30)", "character varying", 30), ("timestamp(6)", "timestamp", 6), ("float(53)", "float", 53), ("bit varying(5)", "bit varying", 5),
 ]
+# size form x array suffix product (a size followed by one or more dimensions keeps size *and* every dimension)
+for _b in ("varchar", "decimal", "character varying", "numeric", "text", "int"):
+    for _sz, _szv in (("", None), ("(10)", 10), ("(12,4)", [12, 4]), ("(12, 4)", [12, 4])):
+        if _sz and _b in ("text", "int"):
+            continue
+        for _suf, _sufv in (("[]", "[]"), ("[][]", "[][]"), ("[][][]", "[][][]"), ("[3]", "[3]"), ("[3][4]", "[3][4]"), (" ARRAY", "[]")):
+            _t = (_b + _sz + _suf, _b + _sufv, _szv)
+            if _t not in SIZED:
+                SIZED.append(_t)
 OPTIONS = [("", {}), (" NOT NULL", {"nullable": False}), (" DEFAULT 5", {"default": 5}), (" DEFAULT 'x'", {"default": "'x'"}),
            (" COMMENT 'c'", {"comment": "'c'"}), (" NOT NULL COMMENT 'c c'", {"nullable": False, "comment": "'c c'"})]
 MODES = ["sql", "hql", "bigquery", "spark_sql"]
